@@ -196,10 +196,18 @@ def strategy_rebalance(chk, pid):
         c = e.recv
         ok_child = c[1][0] == "fld" and c[1][2] == "children" and canon(c[2]) == canon(child)
         amt = e.args[0] if e.args else None
-        b_eff = sym.restrict(_base_value(S, e), g)
         own = fld(SELF, R.VALUE) if mode == "mv" else fld(SELF, R.NOTIONAL)
-        exp = ("-", ("*", weight, b_eff), ("*", ("fld", c, R.WEIGHT, 0), own))
-        ok = amt is not None and e.name == want_call and sym.equal(strip_versions(sym.restrict(amt, g)), strip_versions(exp))
+        # one scenario per kind of base: given by the caller / left at its NaN default (then the strategy's own value or notional)
+        nan_base = canon(("call", "np.isnan", (base,), ()))
+        ok = amt is not None and e.name == want_call
+        exp = ("-", ("*", weight, base), ("*", ("fld", c, R.WEIGHT, 0), own))
+        for is_nan in (False, True):
+            gs = sym.sat(tuple(g) + ((nan_base, is_nan),))
+            if sym.inconsistent(gs) or amt is None:
+                continue
+            exp_s = ("-", ("*", weight, own if is_nan else base), ("*", ("fld", c, R.WEIGHT, 0), own))
+            ok = ok and sym.equal(strip_versions(sym.restrict(amt, gs)), strip_versions(exp_s))
+        b_eff = base
         if mode == "mv":
             chk.ob(rule, ok and ok_child, CORE, host, "delta:mv", "the child receives target holding minus current holding: weight x base - child weight x strategy value",
                    where=e.where, expected=short(exp, 200), found=(e.name + " " + short(sym.restrict(amt, g), 200)) if amt else "?", sample={"delta": short(amt, 160) if amt else None})
